@@ -7,7 +7,7 @@
 (* the solver frame at return; NNLS fallback).  TLC verifies the witnesses *)
 (* and evaluates the KKT certificate of ITML.tla in exact arithmetic.      *)
 (***************************************************************************)
-EXTENDS DyMat, TLC, Json, IOUtils
+EXTENDS DyMat, ITML, TLC, Json, IOUtils
 Batch  == JsonDeserialize(IOEnv.TRACE_FILE)
 Traces == Batch.traces
 VARIABLES tid, l, fails, ex
@@ -19,7 +19,7 @@ IdentM(n) == [i \in 1..n |-> [j \in 1..n |-> IF i = j THEN One ELSE Zero]]
 RECURSIVE SumM(_, _, _)
 SumM(f, i, n) == IF i > n THEN <<>> ELSE IF i = n THEN f[i] ELSE DM!MAdd(f[i], SumM(f, i + 1, n))
 
-Step(ev) ==
+FitStep(ev) ==
   LET d  == Len(ev.M0)
       M  == DM!Gram(ev.L)
       nC == Len(ev.v)
@@ -77,6 +77,52 @@ Step(ev) ==
     \cup (IF \A i \in 1..nC : LET q == DM!QuadForm(ev.M0, ev.v[i]) IN
                 IF ev.y[i] = 1 THEN Leq(q, xi0(i)) ELSE Leq(xi0(i), q)
           THEN {"C11.prior_returned_when_it_satisfies_all_bounds"} ELSE {}))
+
+(***************************************************************************)
+(* "ItmlSweeps": a small fit (few constraints, few sweeps, data on a coarse *)
+(* dyadic grid) replayed against the projection machine of ITML.tla in      *)
+(* exact rational arithmetic.  Logged: constraint vectors in the order of   *)
+(* the implementation, labels, gamma, bounds_, the prior, max_iter, tol,    *)
+(* n_iter_ and components_.  Not logged: duals and slack bounds - the       *)
+(* machine carries them.  Behaviour beyond C11 (clause prefix G11): the     *)
+(* matrix after n_iter_ + 1 sweeps is the machine's, and the loop stopped   *)
+(* exactly when the documented criterion said so (a window of 2^-20 around  *)
+(* tol is left open: the implementation evaluates it in floating point).    *)
+(***************************************************************************)
+ToR(x) == RatNorm(x, One)
+SweepStep(ev) ==
+  LET d   == Len(ev.M0)
+      nC  == Len(ev.v)
+      cs  == [i \in 1..nC |-> [v |-> [j \in 1..d |-> ToR(ev.v[i][j])] \o <<>>, y |-> ev.y[i]]] \o <<>>
+      g   == IF ev.gamma_inf THEN GammaInf ELSE ToR(ev.gamma)
+      A0  == [i \in 1..d |-> [j \in 1..d |-> ToR(ev.M0[i][j])] \o <<>>] \o <<>>
+      n   == ev.n_iter + 1
+      S   == SweepSeq(<<MachineInit(A0, cs, ToR(ev.bounds[1]), ToR(ev.bounds[2]))>>, cs, g, n)
+      M   == DM!Gram(ev.L)
+      tolA == Shift(Add(MaxAbsM(M), MaxAbsM(ev.M0)), -2)
+      close(i, j) == LET a == S[n + 1].A[i][j] IN Leq(Abs(Sub(Mul(M[i][j], a[2]), a[1])), Mul(tolA, a[2]))
+      tS  == RMul(ToR(ev.tol), <<FromInt(1048575), FromInt(1048576)>>)
+      tL  == RMul(ToR(ev.tol), <<FromInt(1048577), FromInt(1048576)>>)
+  IN
+  IF ev.exc # "" THEN R({"G11.small_fit_returns"}, {})
+  ELSE IF ~AllFinM(ev.L) THEN R({"G11.small_fit_is_finite"}, {})
+  \* NAMED DEVIATION of the implementation: "no slack" is recognised by `gamma is np.inf`, an identity test.  Infinity held by
+  \* any other float object gives gamma / (gamma + 1) = NaN, every alpha = min(lambda, NaN) = lambda = 0, and the fit returns
+  \* the prior after one sweep without any message.  (Outside C11, whose quantifier is gamma in (0, inf).)
+  ELSE IF ev.gamma_inf /\ ~ev.gamma_is_np_inf
+       THEN R(G("G11.deviation_infinite_gamma_in_another_float_object_returns_the_prior",
+                ev.n_iter = 0 /\ ApproxM(M, ev.M0, 2, 2, MaxAbsM(ev.M0))),
+              {"G11.deviation_infinite_gamma_in_another_float_object_returns_the_prior"})
+  ELSE R(
+    G("G11.matrix_after_the_sweeps_is_that_of_the_projection_machine", \A i \in 1..d : \A j \in 1..d : close(i, j))
+    \cup G("G11.no_sweep_before_the_last_met_the_stopping_rule", \A j \in 1..(n - 1) : ~StopsAfter(S[j].lam, S[j + 1].lam, tS))
+    \cup (IF n < ev.max_iter THEN G("G11.stopped_early_only_by_the_stopping_rule", StopsAfter(S[n].lam, S[n + 1].lam, tL)) ELSE {})
+    \cup G("G11.machine_keeps_duals_nonnegative", \A j \in 1..(n + 1) : DualFeasible(S[j])),
+    {"G11.matrix_after_the_sweeps_is_that_of_the_projection_machine", "G11.no_sweep_before_the_last_met_the_stopping_rule",
+     "G11.machine_keeps_duals_nonnegative"}
+    \cup (IF n < ev.max_iter THEN {"G11.stopped_early_only_by_the_stopping_rule"} ELSE {}))
+
+Step(ev) == IF ev.ev = "ItmlSweeps" THEN SweepStep(ev) ELSE FitStep(ev)
 
 Init == tid \in 1..Len(Traces) /\ l = 1 /\ fails = {} /\ ex = {}
 Next == /\ l <= Len(Traces[tid].events)
